@@ -310,6 +310,21 @@ Theorem C27_update_file_blocks_chars : forall s nv m rest sol,
 Proof. exact update_file_blocks_chars. Qed.
 Print Assumptions C27_update_file_blocks_chars.
 
+(** [C27_sampler_output_roundtrip] about the text returned by
+    [call_unigen_python] (["v ... 0:1"] lines, [""] without samples) and
+    [call_cmsgen_python] (["v ... 0"] lines; without any solution it returns
+    ["\n"], which still parses to no sample). *)
+Theorem C27_sampler_output_roundtrip_chars :
+  (forall samples, lex_file (unigen_format_text samples) = unigen_format samples /\
+                   parse_sampler_text (unigen_format_text samples)
+                   = Some (map (fun smp => (smp, 1)) samples)) /\
+  (forall ss sols, sols <> [] ->
+                   lex_file (cmsgen_format_text ss sols) = cmsgen_format ss sols) /\
+  (forall ss sols, parse_sampler_text (cmsgen_format_text ss sols)
+                   = Some (map (fun sol => (map (cms_lit sol) ss, 0)) sols)).
+Proof. exact sampler_output_roundtrip_chars. Qed.
+Print Assumptions C27_sampler_output_roundtrip_chars.
+
 (** The hypotheses are satisfiable by non-trivial objects. *)
 Example C27_instance_parse_print :
   let cls := [[1; -2]; [3]; [-1; 2; 4]] in
